@@ -295,6 +295,7 @@ L3_BODIES = [
     [("x", "*", "a", "y"), ("y", "-", "y", "one")],  # x = a*y ; y = y-1
     [("g", "+", "g", "x")],                        # g = g + x   (global: observable memory)
     [("x", "call", "y", None)],                    # x = ext(y)
+    [("x", "copy", "b", None)],                    # x = b  (a pure copy: the block is EMPTY after mem2reg, its value lives in a phi)
 ]
 L3_CONDS = [("x", "<", "three"), ("y", "!=", "a"), ("a", "<", "b"), ("g", "==", "one")]
 
@@ -330,6 +331,9 @@ def l3_program(skel, bodies, conds, ty="i32"):
         body = []
         for (dst, op, s1, s2) in L3_BODIES[bodies[k]]:
             a = load(s1, body)
+            if op == "copy":
+                body.append(["store", a, {"x": AX, "y": AY, "g": "@g"}[dst]])
+                continue
             if op == "call":
                 body.append(["call", "@ext", [a], ty])
             else:
